@@ -397,8 +397,11 @@ func c01run(c *Ctx) {
 			c.Sample(map[string]any{"history": htext, "registered_customs": len(registered), "debug_mode": is.DebugMode(),
 				"cells": fmt.Sprintf("%d logger levels x %d severities x %d entry points x %d formats", len(builtinLevels), len(sevs), len(entries), len(fm))})
 		}
+		// logger levels: the 12 built-ins plus the registered customs (a custom logger level is compared
+		// wherever the reference is fixed: no treat-as level, or both readings agree)
+		loggerLevels := append(append([]slog.Level{}, builtinLevels...), registered...)
 		for _, format := range fm {
-			for _, L := range builtinLevels {
+			for _, L := range loggerLevels {
 				for ei := range entries {
 					e := &entries[ei]
 					rs := sevs
@@ -428,6 +431,6 @@ func c01run(c *Ctx) {
 		}
 	}
 	c.Assume("logger levels OK/Success/Fail are compared only where the raw and the treated-as reading of the logger level agree (the statement does not fix the other cells)")
-	c.Assume("custom logger levels are not used as logger level; custom severities are")
+	c.Assume("custom levels are used both as severity and as logger level; cells whose reference is not fixed by the statement are skipped")
 	_ = strings.Join
 }
